@@ -44,8 +44,8 @@ def write_cfg(name, acts, depth, emit, keys=("a", "b"), maxobj=12, maxgrp=4, che
     return path
 
 
-def tlc_emit(rep, label, acts, depth, simulate=None, seed=None, sim_depth=None, idx=None, ops=None, objs=None):
-    cfg = write_cfg(label, acts, depth if not simulate else sim_depth, emit="states" if simulate else "transitions", check=not simulate, idx=idx, ops=ops, objs=objs)
+def tlc_emit(rep, label, acts, depth, simulate=None, seed=None, sim_depth=None, idx=None, ops=None, objs=None, keys=("a", "b")):
+    cfg = write_cfg(label, acts, depth if not simulate else sim_depth, emit="states" if simulate else "transitions", check=not simulate, idx=idx, ops=ops, objs=objs, keys=keys)
     res = common.run_tlc("Containers", cfg, workers=16, simulate=simulate, depth=sim_depth, seed=seed, timeout=3000)
     rep.tlc(res, label)
     recs = res.json_lines()
@@ -283,15 +283,21 @@ def replay(rep, rec):
 # --------------------------------------------------------------------------- the three checks
 
 def _run(rep, tier, seed, focus, acts_for_sim):
-    depth_focus = {"quick": 3, "thorough": 4}[tier]
+    depth_focus = 3
     idx = ops = None
     if focus == "alias":      # ~300 enabled actions per state: the deep exploration uses a reduced alphabet, depth 2 the full one
         depth_focus = {"quick": 2, "thorough": 3}[tier]
         idx, ops = ["i0", "s02", "s_2", "srev", "mask"], ["add", "mul", "div"]
-    # 1. focused exhaustive exploration, every transition replayed
+    # 1. focused exhaustive exploration, every transition replayed (quick: a stratified sample of 60 000)
     recs = tlc_emit(rep, f"{focus}-bfs-depth{depth_focus}", FOCUS[focus], depth_focus, idx=idx, ops=ops)
-    cap = None if tier == "thorough" else 60000
+    cap = 400000 if tier == "thorough" else 60000
     replay_records(rep, recs, focus, f"{focus}-bfs", sample_cap=cap, seed=seed)
+    del recs
+    if tier == "thorough" and focus != "alias":
+        # depth 4 on a reduced alphabet (one key, five index kinds): the state space of the full alphabet at depth 4 does not fit in memory
+        recs = tlc_emit(rep, f"{focus}-bfs-depth4-reduced", FOCUS[focus], 4, idx=["i0", "s_2", "mask", "ia", "perm"], keys=("a",))
+        replay_records(rep, recs, focus, f"{focus}-bfs4", sample_cap=300000, seed=seed)
+        del recs
     if focus == "alias":
         # conversion - in-place update - conversion: histories of in-place operators alone, on operands in m, cm (Array and Vector) and s
         recs = tlc_emit(rep, "alias-iop-depth3", ["iop"], 3 if tier == "quick" else 4, ops=["add", "mul"], objs=[1, 5, 7, 2])
